@@ -338,6 +338,28 @@ theorem C24_gen_all_rand_sites :
     (Gen.C24.allRandSites.map (·.1)).contains "p2p/addrmgr" = true := by
   decide +kernel
 
+/-- **Events that change consensus state are delivered synchronously** (regenerated): the only
+    `events.Notify` calls of the consensus-relevant packages that are started with `go` concern
+    the network and the transaction pool (peers changed, transactions to append / relay); block
+    connected / disconnected / accepted / processed and the **CR committee change** — whose DPoS
+    handler switches the CR node-key maps used for arbiter accounting — are plain calls, so their
+    handlers have run when the emitting function returns. -/
+theorem C24_gen_sync_events :
+    Gen.C24.notifySites.all (fun s => !s.2.2 ||
+      ["events.ETDirectPeersChanged", "events.ETAppendTxToTxPool", "events.ETAppendTxToTxPoolWithoutRelay",
+       "events.ETTransactionAccepted", "events.ETSmallCrossChainNeedRelay", "events.ETOutdatedTxRelay"].contains s.2.1) = true ∧
+    Gen.C24.notifySites.contains ("cr/state.Committee.ProcessBlock", "events.ETCRCChangeCommittee", false) = true ∧
+    Gen.C24.notifySites.contains ("blockchain.BlockChain.connectBlock", "events.ETBlockConnected", false) = true := by
+  decide +kernel
+
+/-- the council member order is the `Uint168.Compare` order of the DIDs: a strict total order, so
+    the sorted member list is a function of the member set (same argument as for producers) -/
+theorem C24_did_order_total : ∀ (a b : List Nat), a.length = b.length → didLt a b = false → didLt b a = false → a = b := by
+  intro a b hl h1 h2
+  have := keyLt_total a.reverse b.reverse h1 h2
+  have h3 := congrArg List.reverse this
+  simpa using h3
+
 /-- the environment boundary is the reviewed one -/
 theorem C24_gen_boundary :
     Gen.C24.boundaryPackages =
